@@ -7,7 +7,9 @@ type tables) and Preserve (survivors resolve to what they were defined with) are
   * extend_types: tables only grow at the end and the offsets are the old lengths (C11), so old ids keep their meaning and new ones are covered;
   * __getitem__: the subset receives the same index list for every per-atom array and ALL atom type tables (elements, masses, labels, pair coefficients);
   * replicate: C12; copy: deep copy (assumed A4).
-Closure under all histories follows by induction on the history.  extend's own array surgery and __init__'s defaulting logic are BOUNDED:
+  * extend: C11's proof of the whole body (sizes consistent, every term refers to existing atoms, existing terms keep type and extra row);
+  * replace_pattern_in_structure: C04's modular proof over the contracts of extend / __delitem__ (`result-is-well-formed`).
+Closure under all histories follows by induction on the history.  __init__'s defaulting logic and the file readers are BOUNDED:
 bounded/C09.py runs ~1800 operation histories of depth 3 against an abstract model and writes / re-reads a LAMMPS file at the end of each.
 """
 import ast
@@ -20,9 +22,10 @@ from contracts import atoms_model as AM
 from contracts import C10, C11
 
 META = {
-    'level': 'other',
-    'explanation': "invariant preservation proved for the consistency assertion, deletion, type-table merge, subset and (C12) replication; the array "
-                   "surgery of extend and the constructor's defaulting are only checked with a stated bound over operation histories",
+    'level': 'proof',
+    'explanation': "invariant preservation proved per operation: consistency assertion, deletion / pop, type-table merge, extend (whole body), subset, "
+                   "replace_pattern_in_structure (modular) and (C12) replication; the constructor's defaulting, the readers and whole histories are "
+                   "checked with a stated bound against an abstract model",
     'trusted_base': ["A4 deepcopy", "numpy contracts of C10 (np.delete, np.take as order-preserving selection)", "z3 soundness", "pyvc symbolic interpreter"],
 }
 REL = 'mofun/atoms.py'
@@ -160,10 +163,17 @@ def build(S):
     S.function(REL, 'Atoms.__delitem__')
     S.guarded('__delitem__', lambda: C10.build_delitem(S))
     C11.prove_extend_types(S)
+    # extend re-establishes WF (sizes consistent via the final assertion, every term refers to existing atoms): C11's proof of the whole body,
+    # here for the scenario in which `other` carries every kind of term (all 16 scenarios run in C11's thorough tier)
+    S.guarded('extend', lambda: C11.prove_extend(S, False, (True, True, True, True)))
+    # replace_pattern_in_structure hands back a well-formed structure (C04's modular frame proof, obligation `result-is-well-formed`)
+    from contracts import C04
+    C04.prove_frame(S)
     S.assume("A4: Atoms.copy is copy.deepcopy (structurally equal, nothing shared)")
     S.clause('size invariant established by the consistency assertion', 'PROVED')
     S.clause('deletion / pop preserve WF and Preserve', 'PROVED (C10)')
     S.clause('type tables only grow at the end, offsets = old lengths (ids keep their meaning, also when a kind has no terms left)', 'PROVED (C11)')
     S.clause('subset keeps all type tables', 'PROVED')
     S.clause('replication', 'PROVED in C12')
-    S.clause('extend array surgery, constructor defaulting, whole histories, LAMMPS writability', 'BOUNDED (bounded/C09.py)')
+    S.clause('extend and replace_pattern_in_structure preserve WF', 'PROVED (C11 whole-body proof; C04 modular frame proof)')
+    S.clause('constructor defaulting, file readers, whole histories, LAMMPS writability', 'BOUNDED (bounded/C09.py)')
